@@ -200,6 +200,100 @@ pub proof fn lemma_rm_items_fifo<T, OT>(h0: Seq<Call<T, OT>>, items: Seq<(Option
     }
 //@end
 
+// ---- the Vec / slice / array fast paths (impl_vec1! in backends_impl/vec.rs): allocate, fill through the buffer form, assume_init.
+// Same contract as the default bodies above: a zero window on a non-empty series must not reach assume_init.
+//@fn name=rolling_apply crate=tea-core ctx="impl<T: Clone> Vec1View<T> for Vec<T>" as=vec_rolling_apply props=C02,C05,C07,C10 arith=C10
+//@sig fn vec_rolling_apply<V: Vec1View<T>, T, O: Vec1<OT>, OT, F: RollingFn<T, OT>>(this: &V, window: usize, f: &mut F, out: Option<&mut O::Buf>) -> (r: Option<O>)
+//@strip_turbofish
+//@replace this.rolling_apply_to( => rolling_apply_to(this,
+//@replace O::uninit(len) => uninit_buf::<O, OT>(len)
+//@replace O::uninit_ref_mut(&mut out) => &mut out
+//@replace out.assume_init() => assume_init_buf::<O, OT>(out)
+//@spec
+    requires
+        old(f).hist().len() == 0,
+        old(f).inv(),
+        all_elem_ok::<T, OT, F>(this.view()),
+        out matches Some(o) ==> buf_fresh(o, this.view().len()),
+        (window == 0 && out.is_none() && this.view().len() > 0) ==> panic_allowed(),
+    ensures
+        final(f).inv(),
+        final(f).cfg() == old(f).cfg(),
+        window >= 1 ==> trace_ok(final(f).hist(), this.view(), window),                                  // #C02,C07 trace
+        window >= 1 ==> delivered(r, match out { Some(o) => Some(final(o).written()), None => None }, outs(final(f).hist())),   // #C02,C05,C07 delivered_to_buffer_or_returned
+        window == 0 ==> final(f).hist() =~= old(f).hist(),
+        (window == 0 && out.is_some()) ==> r.is_none() && (out matches Some(o) ==> final(o).written() =~= o.written()),
+        (window == 0 && out.is_none() && this.view().len() == 0) ==> r.is_some() && r.unwrap().oview().len() == 0,
+//@at body last
+    proof {
+        if window >= 1 && out.is_none() {
+            assert(__ret.unwrap().oview() =~= outs(f.hist()));
+        }
+    }
+//@end
+
+//@fn name=rolling_apply_idx crate=tea-core ctx="impl<T: Clone> Vec1View<T> for Vec<T>" as=vec_rolling_apply_idx props=C02,C05,C07,C10 arith=C10
+//@sig fn vec_rolling_apply_idx<V: Vec1View<T>, T, O: Vec1<OT>, OT, F: RollingIdxFn<T, OT>>(this: &V, window: usize, f: &mut F, out: Option<&mut O::Buf>) -> (r: Option<O>)
+//@strip_turbofish
+//@replace this.rolling_apply_idx_to( => rolling_apply_idx_to(this,
+//@replace O::uninit(len) => uninit_buf::<O, OT>(len)
+//@replace O::uninit_ref_mut(&mut out) => &mut out
+//@replace out.assume_init() => assume_init_buf::<O, OT>(out)
+//@spec
+    requires
+        old(f).hist().len() == 0,
+        old(f).inv(),
+        old(f).series() == this.view(),
+        out matches Some(o) ==> buf_fresh(o, this.view().len()),
+        (window == 0 && out.is_none() && this.view().len() > 0) ==> panic_allowed(),
+    ensures
+        final(f).inv(),
+        final(f).cfg() == old(f).cfg(),
+        final(f).series() == old(f).series(),
+        window >= 1 ==> trace_idx_ok(final(f).hist(), this.view(), window),                               // #C02,C07 trace
+        window >= 1 ==> delivered(r, match out { Some(o) => Some(final(o).written()), None => None }, outs_idx(final(f).hist())),   // #C02,C05,C07 delivered_to_buffer_or_returned
+        window == 0 ==> final(f).hist() =~= old(f).hist(),
+        (window == 0 && out.is_some()) ==> r.is_none() && (out matches Some(o) ==> final(o).written() =~= o.written()),
+        (window == 0 && out.is_none() && this.view().len() == 0) ==> r.is_some() && r.unwrap().oview().len() == 0,
+//@at body last
+    proof {
+        if window >= 1 && out.is_none() {
+            assert(__ret.unwrap().oview() =~= outs_idx(f.hist()));
+        }
+    }
+//@end
+
+//@fn name=rolling2_apply crate=tea-core ctx="impl<T: Clone> Vec1View<T> for Vec<T>" as=vec_rolling2_apply props=C02,C05,C07,C10 arith=C10
+//@sig fn vec_rolling2_apply<V: Vec1View<T>, T, O: Vec1<OT>, OT, V2: Vec1View<T2>, T2, F: RollingFn<(T, T2), OT>>(this: &V, other: &V2, window: usize, f: &mut F, out: Option<&mut O::Buf>) -> (r: Option<O>)
+//@strip_turbofish
+//@replace this.rolling2_apply_to( => rolling2_apply_to(this,
+//@replace O::uninit(len) => uninit_buf::<O, OT>(len)
+//@replace O::uninit_ref_mut(&mut out) => &mut out
+//@replace out.assume_init() => assume_init_buf::<O, OT>(out)
+//@spec
+    requires
+        old(f).hist().len() == 0,
+        old(f).inv(),
+        other.view().len() >= this.view().len() ==> all_elem_ok::<(T, T2), OT, F>(zipv(this.view(), other.view())),
+        other.view().len() < this.view().len() ==> panic_allowed(),
+        out matches Some(o) ==> buf_fresh(o, this.view().len()),
+        (window == 0 && out.is_none() && this.view().len() > 0) ==> panic_allowed(),
+    ensures
+        final(f).inv(),
+        final(f).cfg() == old(f).cfg(),
+        window >= 1 ==> trace_ok(final(f).hist(), zipv(this.view(), other.view()), window),                  // #C02,C07 trace
+        window >= 1 ==> delivered(r, match out { Some(o) => Some(final(o).written()), None => None }, outs(final(f).hist())),   // #C02,C05,C07 delivered_to_buffer_or_returned
+        window == 0 ==> final(f).hist() =~= old(f).hist(),
+        (window == 0 && out.is_some()) ==> r.is_none() && (out matches Some(o) ==> final(o).written() =~= o.written()),
+        (window == 0 && out.is_none() && this.view().len() == 0) ==> r.is_some() && r.unwrap().oview().len() == 0,
+//@at body last
+    proof {
+        if window >= 1 && out.is_none() {
+            assert(__ret.unwrap().oview() =~= outs(f.hist()));
+        }
+    }
+//@end
+
 // ---- linkage: the trait contract that every client unit (feat, featp, cmp, bin, reg) ASSUMES for the Option-form drivers is
 // discharged here by the functions proved above from the extracted bodies (Verus checks each impl method against the trait's
 // requires / ensures in prelude.rs).  What stays assumed is A-ITER for the stateful `map` (rollmodel.rs), not the drivers.
